@@ -87,11 +87,12 @@ func DefaultOpts() Opts {
 }
 
 type tsig struct {
-	file   int
-	ns     string
-	name   string
-	params []Param
-	cost   int // estimated number of node executions of one render
+	file     int
+	ns       string
+	name     string
+	params   []Param
+	cost     int  // estimated number of node executions of one render
+	textOnly bool // the body is raw text only
 }
 
 type g struct {
@@ -398,7 +399,11 @@ func (x *g) directives(t ty) []string {
 			out = append(out, fmt.Sprintf("|truncate:%d,%v", 4+x.pick(8), x.chance(0.5)))
 		default:
 			if len(x.o.Directives) > 0 {
-				out = append(out, x.o.Directives[x.pick(len(x.o.Directives))])
+				d := x.o.Directives[x.pick(len(x.o.Directives))]
+				if d == "|vwrap" {
+					d += ":['(', " + x.strLit() + "]"
+				}
+				out = append(out, d)
 			}
 		}
 	}
@@ -941,7 +946,7 @@ func (x *g) template(file int, ns, name string) *Template {
 
 // Features lists the constructs Opts.Focus can name.
 var Features = []string{"augment-into-map", "augment-empty", "augment-onto-empty", "data-expr-call", "msg-only-let", "msg-only-param", "push-onto-range", "push-onto-data", "map-literal-print",
-	"css-expr", "literal", "default-first-switch", "plural-msg", "ifempty", "ij", "global", "nested-let-call", "deep-nesting", "long-value", "deep-calls", "phname-tag", "mutual-data-all"}
+	"css-expr", "literal", "default-first-switch", "plural-msg", "ifempty", "ij", "global", "nested-let-call", "deep-nesting", "long-value", "deep-calls", "phname-tag", "mutual-data-all", "text-only-callee", "directive-list-arg"}
 
 // FocusFor draws the focus of a case from its seed: none for two cases in five, otherwise one of
 // the Features.
@@ -1091,6 +1096,22 @@ func (x *g) focusNode() *Node {
 		if x.o.Msgs {
 			return &Node{K: "msg", S: "tags with names", Body: []*Node{{K: "text", S: "click "}, {K: "text", S: "<a href=\"u\" phname=\"the_link\">"}, {K: "text", S: "here"}, {K: "text", S: "</a>"}, {K: "text", S: " <b phname=\"bold\">now</b>"}}}
 		}
+	case "text-only-callee":
+		// a callee whose body is nothing but raw text, called on its own line
+		for _, s := range x.sigs {
+			if s.textOnly {
+				return &Node{K: "call", Tmpl: x.callName(s)}
+			}
+		}
+	case "directive-list-arg":
+		for _, d := range x.o.Directives {
+			if d == "|vwrap" {
+				vs := append(x.vars(tStr), x.vars(tInt)...)
+				if len(vs) > 0 {
+					return &Node{K: "print", E: x.strLit(), Dirs: []string{"|vwrap:[" + x.use(vs[x.pick(len(vs))]) + ", '-']"}}
+				}
+			}
+		}
 	case "long-value":
 		// an escaped value longer than the small buffers code tends to have (64, 256, 4096 bytes), with
 		// special characters at both ends and in the middle
@@ -1209,7 +1230,12 @@ func Generate(seed uint64, o Opts) *Case {
 	for k := len(slots) - 1; k >= 0; k-- {
 		s := slots[k]
 		var t *Template
-		if x.chance(0.06) || (x.o.Focus == "deep-calls" && k == len(slots)-1) {
+		textOnly := false
+		if x.o.Focus == "text-only-callee" && k == len(slots)-1 || x.chance(0.04) {
+			t = &Template{Name: s.name, Body: []*Node{{K: "text", S: x.text() + " static " + x.text()}}}
+			textOnly = true
+			x.cost = 1
+		} else if x.chance(0.06) || (x.o.Focus == "deep-calls" && k == len(slots)-1) {
 			t = x.recursive(s.name)
 		} else {
 			t = x.template(s.file, files[s.file].Namespace, s.name)
@@ -1219,7 +1245,7 @@ func Generate(seed uint64, o Opts) *Case {
 		if len(t.Params) == 1 && t.Params[0].Name == "n" && len(t.Body) == 2 && t.Body[1].K == "if" {
 			cost = 30 // the self-recursive template
 		}
-		x.sigs = append(x.sigs, tsig{file: s.file, ns: files[s.file].Namespace, name: s.name, params: t.Params, cost: cost})
+		x.sigs = append(x.sigs, tsig{file: s.file, ns: files[s.file].Namespace, name: s.name, params: t.Params, cost: cost, textOnly: textOnly})
 	}
 	for k, s := range slots {
 		files[s.file].Templates = append(files[s.file].Templates, tmpls[k])
